@@ -61,8 +61,18 @@ def judge (inp obs : List String) : Verdict :=
         else
           let caseOnly := table.any fun r => r.suffixes.any fun s => specMatches q s && !(lowerName s == s && lowerName q == q)
           s!"unsat:C15.longest_suffix_wins:{if caseOnly then "case-differs" else "other"}"
-      let spec := if kindSpec.isEmpty then spec0 else
-        ";".intercalate ((if spec0.startsWith "unsat" then [spec0] else []) ++ kindSpec)
+      -- C06, on the whole chain: the same question asked twice in a row (`bits`/`bits2` = CD, AD, DO of the two queries);
+      -- the second may be served from the cache (`u2=0`: nothing reached the upstreams) only under the same key
+      let keySpec := match kv inp "bits", kv inp "bits2", kv obs "u2", kv obs "res2" with
+        | some b, some b2, some u2, some r2 =>
+          let cdDiffers := b.toList.head? != b2.toList.head?
+          let doDiffers := b.toList.getLast? != b2.toList.getLast?
+          if res.startsWith "fwd" && r2 == "fwd" && u2 == "0" && (cdDiffers || doDiffers) then
+            [s!"unsat:C06.entry_only_for_same_key:served-across-{if cdDiffers then "checking-disabled" else "dnssec-ok"}"] else []
+        | _, _, _, _ => []
+      let extra := kindSpec ++ keySpec
+      let spec := if extra.isEmpty then spec0 else
+        ";".intercalate ((if spec0.startsWith "unsat" then [spec0] else []) ++ extra)
       { corr, spec }
     | none => badInput "route-dump"
   | _, _, _, _ =>
